@@ -91,6 +91,7 @@ theorem evalCond_eq_holds (m : List Bool) (c : Cond) : evalCond m c = c.holds (f
   induction c with
   | lit b => rfl
   | str f => rfl
+  | cnt f g => rfl
   | rule j => rfl
   | not c ih => simp [evalCond, Cond.holds, ih]
   | and a b iha ihb => simp [evalCond, Cond.holds, iha, ihb]
@@ -102,6 +103,7 @@ theorem holds_false_of_required (env : Nat → Bool) (c : Cond) (hr : c.required
   induction c with
   | lit b => simp [Cond.required] at hr
   | str f => simpa [Cond.anyFound, Cond.holds] using hf
+  | cnt f g => simp [Cond.required] at hr
   | rule j => simp [Cond.required] at hr
   | not c _ => simp [Cond.required] at hr
   | and a b iha ihb =>
@@ -235,7 +237,7 @@ theorem report_eq_play (fl : Flags) (e : Ex) (i : Nat) (rs : List Rule) (s : Lis
           rw [hc]
 
 theorem play_finished (s : List Ret) : play [.scanFinished] s = ⟨[.scanFinished], none, (call s).2⟩ := by
-  simp [play, verdict, Msg.isRule, Msg.isModule]
+  simp [play, verdict, Msg.isRule, Msg.isModule, Msg.isTooMany]
 
 /-- **Refinement**: the C-shaped model and the protocol specification agree on every input. -/
 theorem scan_eq_specScan (rs : List Rule) (imports : List String) (fl : Flags) (script : List Ret) :
